@@ -936,12 +936,14 @@ def execute(plan, timeout=None):
   if plan["profile"] == "e2e":
     res = core.run_in_child(_subject_e2e, (plan,), timeout or 1500.0,
                             "engineC e2e")
-    viol, st = judge_e2e(plan, res)
+    viol, st = core.run_in_child(judge_e2e, (plan, res), 600.0,
+                                 "engineC judge")
     events = [{k: v for k, v in ev.items()} for ev in res["events"]]
   else:
     res = core.run_in_child(_subject, (plan,), timeout or 300.0,
                             "engineC driver")
-    viol, st = judge_driver(plan, res)
+    viol, st = core.run_in_child(judge_driver, (plan, res), 600.0,
+                                 "engineC judge")
     events = res["events"]
   return events, viol, st
 
